@@ -7,6 +7,10 @@ import re
 from ..astq import Node, up, strip, strip_cast
 
 
+_LIMITS = {"u8::MAX": 255, "u16::MAX": 65535, "u32::MAX": 4294967295, "u64::MAX": 18446744073709551615, "i32::MAX": 2147483647, "i32::MIN": -2147483648,
+           "usize::MAX": 18446744073709551615, "u8::MIN": 0, "u16::MIN": 0, "u32::MIN": 0, "u64::MIN": 0}
+
+
 class NotPure(Exception):
     pass
 
@@ -269,6 +273,12 @@ class Interp:
             hook = self.extern.get("path")
             if hook is not None:
                 return hook(p)
+            if p in _LIMITS:
+                return _LIMITS[p]
+            cn = p.split("::")[-1]
+            cands = [node for (f_, n_), node in getattr(self.ast, "consts", {}).items() if n_ == cn and f_.endswith(self.file) and isinstance(node.get("e"), Node)]
+            if len(cands) == 1 and depth < self.max_depth:
+                return self.ev(cands[0]["e"], {}, depth + 1)        # a `const` of this file (or of the function body)
             if "::" in p and p.split("::")[-1][:1].isupper():
                 return ("variant", p.split("::")[-1], [])
             raise NotPure("free name " + p)
@@ -407,6 +417,8 @@ class Interp:
                 if isinstance(b_, float) and b_ != b_:
                     return a_
                 return min(a_, b_) if m == "min" else max(a_, b_)
+            if m == "clamp" and len(args) == 2 and all(isinstance(x, int) and not isinstance(x, bool) for x in [recv] + args):
+                return min(max(recv, args[0]), args[1])
             if m in ("clone", "to_owned", "into", "copied") and not args:
                 return recv
             if m == "map" and len(args) == 1 and isinstance(args[0], tuple) and args[0][0] == "closure" and (recv is None or (isinstance(recv, tuple) and recv[0] == "some")):
